@@ -405,6 +405,8 @@ class Check:
             import literals
             self.new_literals = literals.new()
             gen.inject(self.new_literals)
+            self.new_ints = literals.new_ints()
+            gen.inject_ints(self.new_ints)
         except Exception as e:  # noqa: BLE001
             self.new_literals = [f"(unavailable: {e})"]
         if self.proof.driver_ok:
@@ -624,6 +626,7 @@ class Check:
             "exhaustive_scopes": self.exhaustive_scopes,
             "changed_functions": self.changed_functions(),
             "new_source_literals": getattr(self, "new_literals", []),
+            "new_source_ints": getattr(self, "new_ints", []),
             "known_findings_seen": self.known_seen,
             "translator_problems": pr.translate_info.get("problems", []),
             "translator_notes": pr.translate_info.get("notes", []),
